@@ -583,3 +583,142 @@ func CorpusPhaseSplitInterrupt(o *drv.Out, ts [7]int) {
 		fmt.Sprintf("round-1 start times of the correct replicas (ms): %v; first round with a live leader: %d, first commit in round %d", starts[1], firstLive, commitRound))
 	r.End()
 }
+
+// CorpusOldRootLockVsNewRootLock: locks on both sides of a root-chain update and the old-lock replicas needed afterwards.
+// n equal-stake validators; `crash` fall silent after the prefix; `old` lock on X at (10,1) (round 0 fails, in round 1 the
+// PRECOMMIT reaches only them); everybody is reset to root height 11 (locks kept); at (11,0) a leader that never heard of
+// the old lock gets a fresh Y certified and one other replica locks on it (precommit votes lost). Then synchrony: every
+// remaining replica is needed for +2/3. The leader ranks the (11,0) lock above the (10,1) one (View.Less) and re-proposes
+// Y; the old-lock replicas must unlock — their lock is older although its round number is higher.
+func CorpusOldRootLockVsNewRootLock(o *drv.Out, n int, crash, old []int) {
+	in := func(set []int, x int) bool {
+		for _, y := range set {
+			if y == x {
+				return true
+			}
+		}
+		return false
+	}
+	pw := make([]uint64, n)
+	for i := range pw {
+		pw[i] = 1
+	}
+	cfg := bftsim.Config{N: n, Powers: pw, Byz: crash, Root0: 10, Salt: 1, RealTimeouts: true}
+	probe := bftsim.New(cfg)
+	for ; ; cfg.Salt++ {
+		probe.SetSalt(cfg.Salt)
+		l0, l1 := probe.FallbackLeader(11, 0), probe.FallbackLeader(11, 1)
+		if !in(old, l0) && !in(old, l1) && !in(crash, l1) {
+			break
+		}
+	}
+	r := c01.NewRun(o, fmt.Sprintf("corpus/old-root-lock-vs-new-root-lock/n%d", n), cfg)
+	s := r.Sim()
+	all := others(s)
+	step := func(who []int) {
+		for _, i := range who {
+			if !c01.Committed(s, i) {
+				r.Phase(i)
+			}
+		}
+	}
+	deliver := func(f func(e *bftsim.Envelope) bool) {
+		for _, e := range s.Take(func(e *bftsim.Envelope) bool { return e.Kind != "ELECTION" && (f == nil || f(e)) }) {
+			r.Deliver(e)
+		}
+		s.DropAll()
+	}
+	inRound := func(rd uint64) []int {
+		var out []int
+		for _, i := range all {
+			if b := s.Nodes[i].B; b.Round == rd && b.Phase != bft.Pacemaker && b.Phase != bft.Election {
+				out = append(out, i)
+			}
+		}
+		return out
+	}
+	toElection := func() {
+		for _, i := range all {
+			for k := 0; s.Nodes[i].B.Phase != bft.Election && k < 12; k++ {
+				r.Phase(i)
+			}
+		}
+		s.DropAll()
+	}
+	// (10,0): nothing is delivered
+	step(all)
+	s.DropAll()
+	for _, i := range all {
+		for k := 0; k < 12; k++ {
+			if r.Phase(i).After == bft.Election {
+				break
+			}
+		}
+	}
+	s.DropAll()
+	// (10,1): X certified, the PRECOMMIT reaches only the `old` replicas
+	for k := 0; k < 4; k++ {
+		step(all)
+		deliver(nil)
+	}
+	step(inRound(1)) // PRECOMMIT
+	deliver(func(e *bftsim.Envelope) bool { return in(old, e.To) })
+	step(inRound(1)) // PRECOMMIT_VOTE
+	s.DropAll()
+	toElection()
+	for _, i := range all {
+		r.Reset(i, 11)
+	}
+	// (11,0): the old locks are not heard; fresh Y certified; one other correct replica locks on it
+	notOld := func(e *bftsim.Envelope) bool { return !in(old, e.From) }
+	for k := 0; k < 4; k++ {
+		step(all)
+		deliver(notOld)
+	}
+	newLocker := -1
+	for _, i := range all {
+		if !in(old, i) && !in(crash, i) && i != s.FallbackLeader(11, 0) {
+			newLocker = i
+			break
+		}
+	}
+	step(inRound(0)) // PRECOMMIT
+	deliver(func(e *bftsim.Envelope) bool { return e.To == newLocker })
+	step(inRound(0)) // PRECOMMIT_VOTE
+	s.DropAll()
+	toElection()
+	states := ""
+	for _, i := range all {
+		if !in(crash, i) {
+			states += fmt.Sprintf(" %d:[%s]", i, s.State(i))
+		}
+	}
+	var live []int
+	for _, i := range all {
+		if !in(crash, i) {
+			live = append(live, i)
+		}
+	}
+	rounds, n2 := 0, 0
+	for ; n2 == 0 && rounds < 4; rounds++ {
+		round := s.Nodes[live[0]].B.Round
+		for k := 0; k < 9 && honestCommits(s) == 0; k++ {
+			moved := false
+			for _, i := range live {
+				if b := s.Nodes[i].B; !c01.Committed(s, i) && !(b.Phase == bft.Election && b.Round > round) {
+					r.Phase(i)
+					moved = true
+				}
+			}
+			deliver(func(e *bftsim.Envelope) bool { return !in(crash, e.To) })
+			if !moved {
+				break
+			}
+		}
+		n2 = honestCommits(s)
+	}
+	verdict(o, r, "C15:no-commit-after-gst:lock-order-across-root-heights",
+		"a lock from (10,1) must yield to the lock from (11,0) that the leader ranks highest", n2 > 0 && rounds == 1,
+		fmt.Sprintf("before synchrony:%s; committed after +%d rounds: %s", states, rounds-1, c01.CommitsStr(s)))
+	r.End()
+}
